@@ -191,7 +191,8 @@ def _ascii_meta(chart):
     c = dict(chart)
     c["meta"] = dict(chart["meta"])
     for f in ("title", "artist"):
-        c["meta"][f] = unidecode(chart["meta"][f]).strip()
+        # a value is one line: where the transliteration has a line break (U+2028, U+2029) the file has a blank
+        c["meta"][f] = unidecode(chart["meta"][f]).replace("\n", " ").strip()
     return c
 
 
